@@ -9,6 +9,8 @@ import (
 
 // IsHunting returns true if the ip is activelly hunted via a goroutine
 func (h *Handler) IsHunting(ip netip.Addr) bool {
+	h.arpMutex.Lock() // the hunt list is changed by StartHunt and StopHunt
+	defer h.arpMutex.Unlock()
 	_, b := h.findHuntByIP(ip)
 	return b
 }
@@ -81,15 +83,16 @@ func (h *Handler) spoofLoop(addr packet.Addr) {
 	for {
 		h.arpMutex.Lock()
 		targetAddr, hunting := h.findHuntByIP(addr.IP)
+		closed := h.closed
 		h.arpMutex.Unlock()
 
-		if !hunting || h.closed {
+		if !hunting || closed {
 			if Logger.IsInfo() {
 				Logger.Msg("hunt loop stop").Struct(addr).Int("repeat", nTimes).String("duration", time.Since(startTime).String()).Write()
 			}
 
 			// When hunt terminate normally, clear the arp table with announcement to real router mac.
-			if !h.closed {
+			if !closed {
 				// request will fix the ether src mac to host to prevent ethernet port disabling
 				if err := h.RequestRaw(addr.MAC, h.session.NICInfo.RouterAddr4, h.session.NICInfo.RouterAddr4); err != nil {
 					Logger.Msg("error send request packet").Struct(addr).Error(err).Write()
